@@ -217,3 +217,133 @@ func runRim4(f lib.Flags, res *lib.Result) {
 		tie.Count(c.Model)
 	}
 }
+
+// --- openclosepb GetPositions (lean/ScVerif/C07/Rim3.lean `getPositions`, theorem C07_openclose_get_frame) ------------
+//
+// The sharing structure of the composed response: how many of its states ARE stored messages (pointer identity), whether
+// its preset IS the configured description, and that no stored / configured message changed. Exhaustive small domain.
+
+type positionsCase struct {
+	Kind   string `json:"kind"` // "positions"
+	K      int    `json:"k"`    // stored positions
+	Preset bool   `json:"preset"`
+	Mask   string `json:"mask"` // nil | states | states.f | preset | preset.f | both
+	Server bool   `json:"server"`
+}
+
+func (c positionsCase) line() string {
+	return fmt.Sprintf("rim positions %d %d %s", c.K, b2i(c.Preset), c.Mask)
+}
+
+func runPositionsCase(c positionsCase) string {
+	var stored []*traits.OpenClosePosition
+	var same []*traits.OpenClosePosition
+	for i := 0; i < c.K; i++ {
+		p := &traits.OpenClosePosition{OpenPercent: float32(30 + 10*i), Direction: traits.OpenClosePosition_Direction(1 + i), Resistance: traits.OpenClosePosition_HELD}
+		stored = append(stored, p)
+		same = append(same, proto.Clone(p).(*traits.OpenClosePosition))
+	}
+	desc := &traits.OpenClosePositions_Preset{Name: "p", Title: "title-p"}
+	opts := []resource.Option{openclosepb.WithInitialPositions(stored...)}
+	if c.Preset {
+		opts = append(opts, openclosepb.WithPreset(desc, same...)) // equal to the stored positions: the preset is current
+	}
+	var fm *fieldmaskpb.FieldMask
+	if paths := map[string][]string{"states": {"states"}, "states.f": {"states.open_percent"}, "preset": {"preset"}, "preset.f": {"preset.name"},
+		"both": {"states.direction", "preset.title"}}[c.Mask]; paths != nil {
+		fm = &fieldmaskpb.FieldMask{Paths: paths}
+	}
+	var res *traits.OpenClosePositions
+	all := []proto.Message{desc}
+	for _, p := range stored {
+		all = append(all, p)
+	}
+	copies := make([]proto.Message, len(all))
+	for i, m := range all {
+		copies[i] = proto.Clone(m)
+	}
+	panicked, msg := lib.Catch(func() {
+		model := openclosepb.NewModel(opts...)
+		var err error
+		if c.Server {
+			res, err = openclosepb.NewModelServer(model).GetPositions(context.Background(), &traits.GetOpenClosePositionsRequest{ReadMask: fm})
+		} else if fm != nil {
+			res, err = model.GetPositions(resource.WithReadMask(fm))
+		} else {
+			res, err = model.GetPositions()
+		}
+		if err != nil {
+			panic(err)
+		}
+	})
+	if panicked {
+		return "panic:" + msg
+	}
+	shared := 0
+	for _, s := range res.GetStates() {
+		for _, p := range stored {
+			if s == p {
+				shared++
+			}
+		}
+	}
+	ps := "-"
+	if res.GetPreset() != nil {
+		ps = fmt.Sprint(b2i(res.Preset == desc))
+	}
+	changed := 0
+	for i, m := range all {
+		if !proto.Equal(m, copies[i]) {
+			changed++
+		}
+	}
+	return fmt.Sprintf("shared=%d,%s|changed=%d", shared, ps, changed)
+}
+
+func positionsViolation(c positionsCase, ans string, mon *lib.Monitor) {
+	if strings.HasSuffix(ans, "|changed=0") {
+		return
+	}
+	mon.Violate("C07/openclosepb/GetPositions/writes-stored-or-preset", "GetPositions changed stored positions or the configured preset description (or panicked)", c, "changed=0", ans)
+}
+
+func runRim5(f lib.Flags, res *lib.Result) {
+	tie := res.Tie("rim-positions", "K2",
+		"openclosepb Model.GetPositions / ModelServer.GetPositions vs the Lean `getPositions`: 0-3 stored positions x a current preset or none x read mask {nil, states, states.open_percent, preset, "+
+			"preset.name, states.direction+preset.title}; the whole domain; compared: how many states of the response ARE stored messages, whether its preset IS the configured description, "+
+			"how many stored/configured messages changed; non-trivial = at least one stored position or a current preset")
+	tie.Exhaustive = true
+	mon := res.Monitor("rim-positions-frame", "on the same cases: a read changes no stored position and not the configured preset description")
+	drv, err := lib.StartDriver(f.Driver)
+	if err != nil {
+		tie.Fail(err)
+		return
+	}
+	defer drv.Close()
+	var cases []positionsCase
+	for k := 0; k <= 3; k++ {
+		for _, pr := range []bool{false, true} {
+			for _, mask := range []string{"nil", "states", "states.f", "preset", "preset.f", "both"} {
+				for _, server := range []bool{false, true} {
+					cases = append(cases, positionsCase{Kind: "positions", K: k, Preset: pr, Mask: mask, Server: server})
+				}
+			}
+		}
+	}
+	lines := make([]string, len(cases))
+	for i, c := range cases {
+		lines[i] = c.line()
+	}
+	model, err := drv.Batch(lines)
+	if err != nil {
+		tie.Fail(err)
+		return
+	}
+	for i, c := range cases {
+		ans := runPositionsCase(c)
+		key := fmt.Sprintf("%d/%v/%s/%v", c.K, c.Preset, c.Mask, c.Server)
+		mon.Eval(key, c.K > 0 || c.Preset, nil)
+		positionsViolation(c, ans, mon)
+		tie.Record(key, c.K > 0 || c.Preset, c, model[i], ans)
+	}
+}
